@@ -17,6 +17,11 @@ Part `static_cache_coverage` (every run, on /repo's current source text): every
 of fields the code documents as ignored); the keys of the cache string are the
 ones the mirror's `cache` record stands for.
 
+Part `manual_flow` (theories/C18/Tok*.v): the manual-lexer build script — CTParserBuilder::build, then
+CTTokenMapBuilder::<StorageT>::new(mod, ctp.token_map()) [.rename_map] [.allow_dead_code] .build() (or the deprecated
+ct_token_map) writing $OUT_DIR/<mod>.rs — over grammars whose token names are / are not Rust identifiers, rename maps
+added and removed, module names (one is no identifier: the panic path); every build against a clean build and the mirror.
+
 Part `test_files` (theories/C18/Insp*.v): histories over grammars whose header has
 a `test_files` key, with the lexer builder's inspector as an abstract verdict.
 """
@@ -42,6 +47,11 @@ LX_IN_CACHE = True
 
 # True once /repo removes earlier output also when a build PANICS (StorageT not big enough: the documented refusal)
 PANIC_CLEANUP_FIXED = True
+# True: /repo contains 746e223 (CTTokenMapBuilder::build removes $OUT_DIR/<mod>.rs on Err and on a panic).  False selects the
+# pinned mirror (tfixed = false) and the tolerant comparison for exactly that class (scratch evaluation of the reverse patch:
+# C18_TOKMAP_CLEANUP_FIXED=0)
+TOKMAP_CLEANUP_FIXED = True
+K_TOKMAP = "token map module of an earlier build survives a failing CTTokenMapBuilder::build"      # known_findings.json: fixed, 746e223
 K_PANIC = "generated files of an earlier build survive a build that panics because StorageT is not big enough"
 K_STALE = "stale generated file survives a build that fails with a grammar/lexer syntax error"
 K_LEXOUT = "lexer output of an earlier build survives a build that fails at the parser's conflict check"
@@ -515,8 +525,9 @@ def classify(out, ypath, lpath):
     return ("ok", regen)
 
 
-def spawn(exe, line):
-    p = subprocess.run([exe], input=line + "\n", stdout=subprocess.PIPE, stderr=subprocess.PIPE, text=True, timeout=120)
+def spawn(exe, line, env=None):
+    p = subprocess.run([exe], input=line + "\n", stdout=subprocess.PIPE, stderr=subprocess.PIPE, text=True, timeout=120,
+                       env=dict(os.environ, **env) if env else None)
     out = p.stdout.strip().splitlines()
     return out[-1] if out else "CRASH rc=%s %s" % (p.returncode, p.stderr[-200:].replace("\n", " "))
 
@@ -648,7 +659,9 @@ def describe_tf_history(g0, l0, tf0, ops):
 
 
 def run(ctx):
-    global STALE_FIXED, ST_IN_CACHE, LX_IN_CACHE
+    global STALE_FIXED, ST_IN_CACHE, LX_IN_CACHE, TOKMAP_CLEANUP_FIXED
+    if os.environ.get("C18_TOKMAP_CLEANUP_FIXED"):
+        TOKMAP_CLEANUP_FIXED = os.environ["C18_TOKMAP_CLEANUP_FIXED"] == "1"
     # (for trying the check against a repaired copy of the crates: C18_EXE=<harness built against it>)
     if os.environ.get("C18_STALE_FIXED"):
         STALE_FIXED = os.environ["C18_STALE_FIXED"] == "1"
@@ -962,9 +975,411 @@ def panic_probe(ctx, exe):
     ctx.oblige(nbad == 0, "no generated file survives a panicking build")
 
 
+# ---- the manual-lexer flow: CTParserBuilder::build ; CTTokenMapBuilder::build (theories/C18/Tok*.v) ------------------
+# token-map classes of the grammars below: the declared tokens, in the order of the %token line
+M_TOKS = {10: ["PLUS", "INT"], 11: ["*", "PLUS", "INT"], 12: ["PLUS", "INT", "ä", "if"], 13: ["+", "*", "INT"]}
+
+
+def _mtok(n):
+    return n if re.match(r"^[A-Z]+$", n) else "'%s'" % n
+
+
+def _mg(i, syn, warn, conf, toks, rules):
+    head = _H + ("%%token %s\n" % " ".join(_mtok(n) for n in M_TOKS[toks]) if toks in M_TOKS else "")
+    _G[i] = (head + "%%\n" + rules, syn, warn, conf, toks)
+
+
+_mg(100, 1, 0, 0, 10, "E: E PLUS INT { $1 } | INT { 1 } ;\n")                          # the auditor's G1
+_mg(101, 1, 0, 0, 10, "E: INT PLUS E { $3 } | INT { 2 } ;\n")
+_mg(102, 1, 0, 0, 11, "E: E PLUS INT { $1 } | E '*' INT { $1 } | INT { 1 } ;\n")       # the auditor's G2: '*' declared first
+_mg(103, 1, 0, 0, 11, "E: INT PLUS E { $3 } | INT '*' E { $3 } | INT { 2 } ;\n")
+_mg(104, 1, 0, 0, 12, "E: E PLUS INT { $1 } | 'if' E 'ä' { $2 } | INT { 1 } ;\n")  # T_IF, T_ä are identifiers
+_mg(105, 1, 0, 0, 13, "E: E '+' INT { $1 } | E '*' INT { $1 } | INT { 1 } ;\n")
+_mg(110, 1, 0, 1, 10, "E: E PLUS E { $1 } | INT { 1 } ;\n")
+_mg(111, 1, 0, 1, 11, "E: E PLUS E { $1 } | E '*' E { $1 } | INT { 1 } ;\n")
+_mg(120, 1, 1, 0, 10, "E: E PLUS INT { $1 } | INT { 1 } ;\nU: INT { 0 } ;\n")
+_mg(130, 0, 0, 0, 0, "E: E PLUS INT { $1 } | INT { 1 } \nT: ;;; %% {\n")
+M_VALID, M_CONF, M_WARN, M_SYN = [100, 101, 102, 103, 104, 105], [110, 111], [120], [130]
+# rename maps (0: rename_map not called)
+M_REN = {0: None, 1: {"*": "STAR"}, 2: {"*": "STAR", "+": "ADD"}, 3: {"*": "a b"}, 4: {"PLUS": "+"}, 5: {"NOSUCH": "X"},
+         6: {"*": "STAR", "PLUS": "ADD"}, 7: {"ä": "AE", "if": "IF_KW"}}
+# module names = names of the output file; `a-b` is no identifier (format_ident! panics), `fn` is one for proc_macro2
+# (the module then does not parse and is written unformatted)
+M_MODS = ["token_map", "tm2", "a-b", "fn"]
+M_MODOK = [1, 1, 0, 1]
+M_OPTS = {"tmod": len(M_MODS), "tadc": 3, "tren": len(M_REN), "tapi": 2}
+M_DEFAULT = {"tmod": 0, "tadc": 0, "tren": 0, "tapi": 0}
+M_POPTS = ["yk", "rec", "vis", "ed", "eoc", "wae", "sw", "ser", "mod", "st"]
+_m_codes = {}
+
+
+def m_renamed(toks, ren):
+    """the abstract function `renamed` of C18/TokModel.v for the texts above: None if some token name, after renaming, is
+    not an identifier once prefixed with T_; else a code for the list of (identifier, id) pairs in the order of the
+    generated module (sorted by the ORIGINAL names)"""
+    rm = M_REN[ren] or {}
+    final = []
+    for n in sorted(M_TOKS[toks]):
+        f = "".join(ch.upper() if "a" <= ch <= "z" else ch for ch in rm.get(n, n))
+        if not ("T_" + f).isidentifier():
+            return None
+        final.append(f)
+    return _m_codes.setdefault((toks, tuple(final)), len(_m_codes))
+
+
+def m_table():
+    out = []
+    for toks in sorted(M_TOKS):
+        for ren in sorted(M_REN):
+            code = m_renamed(toks, ren)
+            out.append("%d:%d:%d" % (toks, ren, -1 if code is None else code))
+    return " ".join(out)
+
+
+def m_tsettings(c, tc):
+    adc = 1 if tc["tapi"] == 1 else (1 if tc["tadc"] == 2 else 0)      # ct_token_map() = allow_dead_code(true)
+    return [tc["tmod"], M_MODOK[tc["tmod"]], c["st"], adc, tc["tren"]]
+
+
+def m_model_line(g0, ops, times):
+    def ysrc(g):
+        _, syn, warn, conf, toks = _G[g]
+        return "%d %d %d %d %d" % (g, syn, warn, conf, toks)
+    c, tc = dict(DEFAULT), dict(M_DEFAULT)
+    parts = []
+    for t, o in zip(times, ops):
+        if o[0] == "B":
+            parts.append("%d B" % t)
+        elif o[0] == "Y":
+            parts.append("%d Y %s" % (t, ysrc(o[1])))
+        elif o[0] == "S":
+            c[o[1]] = o[2]
+            parts.append("%d S %s" % (t, " ".join(map(str, settings_ints(c)))))
+            if o[1] == "st":          # one StorageT for both builders: the token map is a HashMap<String, StorageT>
+                parts.append("%d R %s" % (t, " ".join(map(str, m_tsettings(c, tc)))))
+        else:
+            tc[o[1]] = o[2]
+            parts.append("%d R %s" % (t, " ".join(map(str, m_tsettings(c, tc)))))
+    return "M %d %d | %s | %s | %s | %s | %s" % (1 if STALE_FIXED else 0, 1 if TOKMAP_CLEANUP_FIXED else 0, ysrc(g0),
+                                              " ".join(map(str, settings_ints(DEFAULT))),
+                                              " ".join(map(str, m_tsettings(DEFAULT, M_DEFAULT))), " ; ".join(parts), m_table())
+
+
+def m_harness_line(c, tc, ypath, yout):
+    line = harness_line("P", dict(c, lt=0), ypath, yout, "", "").replace("mode=P", "mode=M", 1)
+    rm = M_REN[tc["tren"]]
+    tren = "-" if rm is None else ",".join("%s:%s" % (hx(k), hx(v)) for k, v in sorted(rm.items()))
+    return "%s tmod=%s tren=%s tadc=%s tapi=%s" % (line, hx(M_MODS[tc["tmod"]]), tren, ["-", "0", "1"][tc["tadc"]], "bf"[tc["tapi"]])
+
+
+def m_classify(out, ypath):
+    """-> (parser class, regenerated, token map stage: ok | err | panic | - | other)"""
+    m = re.match(r"P:(\S+) T:(\S+)$", out.strip())
+    if not m:
+        return ("harness:" + out[:60], None, "?")
+    pc, regen = classify("P:%s L:-" % m.group(1), ypath, "")
+    tpart = m.group(2)
+    if tpart.startswith("err:"):
+        msg = bytes.fromhex(tpart[4:]).decode("utf-8", "replace")
+        tpart = "err" if "is not a valid Rust identifier" in msg else "err_other:" + msg[:80]
+    return (pc, regen, tpart)
+
+
+def m_histories(rng, nrandom):
+    B = ("B",)
+    Y, S, R = (lambda g: ("Y", g)), (lambda n, v: ("S", n, v)), (lambda n, v: ("R", n, v))
+    shapes = [
+        # the audit: G1, build; G2 (token '*', no rename map entry), build: the token map stage fails
+        (100, [B, Y(102), B]),
+        (100, [B, Y(102), B, R("tren", 1), B, B]),                       # ... the rename map is added
+        (100, [B, Y(102), B, Y(100), B, B]),                             # ... or the token is removed again
+        (102, [R("tren", 1), B, R("tren", 0), B, R("tren", 1), B]),      # a rename map removed and added
+        (102, [B, B, R("tren", 1), B, B]),                               # starts failing
+        (102, [R("tren", 1), B, R("tren", 3), B, R("tren", 6), B, R("tren", 1), B]),   # renamed to a non-identifier; another name
+        (100, [B, R("tren", 4), B, R("tren", 5), B, B]),                 # an identifier renamed to `+`; an irrelevant map
+        (104, [B, B, R("tren", 7), B, Y(100), B]),                       # 'if', a non-ASCII name
+        (105, [B, R("tren", 1), B, R("tren", 2), B, Y(102), B, R("tren", 0), B]),   # two odd names
+        (100, [B, R("tadc", 2), B, R("tadc", 1), B, R("tadc", 0), B]),   # allow_dead_code; false = not set: same text
+        (100, [B, S("st", 0), B, S("st", 1), B, B]),                     # StorageT of both builders
+        (100, [B, R("tapi", 1), B, R("tadc", 2), R("tapi", 0), B, B]),   # the deprecated wrapper = allow_dead_code(true)
+        (102, [R("tapi", 1), B, R("tren", 1), B, R("tren", 0), B]),      # ... fails and cleans up the same way
+        # the module name is the file name: a change addresses another file, the old one is not this build's
+        (100, [B, R("tmod", 1), B, R("tmod", 0), B, Y(102), B, R("tmod", 1), B]),
+        (100, [B, R("tmod", 2), B, R("tmod", 0), B]),                    # `a-b`: format_ident! panics
+        (102, [R("tmod", 2), B, R("tren", 1), B, R("tmod", 3), B, B]),   # `fn`
+        (100, [R("tmod", 3), B, Y(102), B, Y(101), B]),
+        # edits that keep the token map / that change the parser only
+        (100, [B, Y(101), B, B, S("vis", 1), B, Y(100), B]),
+        (102, [R("tren", 1), B, Y(103), B, Y(105), B, Y(103), B]),
+        # a failing PARSER stage: the script ends, the token map builder is not run
+        (100, [B, Y(130), B, Y(102), B, Y(130), B]),
+        (100, [B, Y(110), B, S("eoc", 0), B, Y(111), B, S("eoc", 1), B]),
+        (100, [B, Y(120), B, S("wae", 0), B]),
+        (102, [B, Y(130), B, Y(100), B]),
+    ]
+    hs = [(g0, ops, default_times(ops)) for g0, ops in shapes]
+    hs.append((100, [B, Y(102), B, Y(100), B], [1, 1, 1, 1, 2]))          # same ticks
+    hs.append((100, [B, B, Y(102), R("tren", 1), B, B], [1, 2, 2, 2, 2, 3]))
+    for _ in range(nrandom):
+        n = rng.randint(4, 12)
+        g0 = rng.choice(M_VALID + M_VALID + M_CONF + M_WARN)
+        ops, c, tc = [], dict(DEFAULT), dict(M_DEFAULT)
+        while len(ops) < n:
+            r = rng.random()
+            if r < 0.40 or len(ops) == n - 1:
+                ops.append(B)
+            elif r < 0.62:
+                ops.append(Y(rng.choice(M_VALID * 4 + M_CONF + M_WARN + M_SYN)))
+            elif r < 0.88:
+                name = rng.choice(["tren", "tren", "tren", "tmod", "tadc", "tapi"])
+                tc[name] = rng.choice([x for x in range(M_OPTS[name]) if x != tc[name]])
+                ops.append(R(name, tc[name]))
+            else:
+                name = rng.choice(M_POPTS)
+                nvals = len([o for o in OPTS if o[0] == name][0][2])
+                c[name] = rng.choice([x for x in range(nvals) if x != c[name]])
+                ops.append(S(name, c[name]))
+        hs.append((g0, ops, random_times(rng, ops) if rng.random() < 0.4 else default_times(ops)))
+    return hs
+
+
+def run_manual_history(exe, idx, g0, ops, times):
+    casedir = os.path.join(WORKROOT, "m%05d" % idx)
+    shutil.rmtree(casedir, ignore_errors=True)
+    src, out = os.path.join(casedir, "src"), os.path.join(casedir, "out")
+    os.makedirs(src)
+    os.makedirs(out)
+    ypath, yout = os.path.join(src, "g.y"), os.path.join(out, "g.y.rs")
+    with open(ypath, "w") as f:
+        f.write(_G[g0][0])
+    set_mtime(ypath, 0)
+    c, tc = dict(DEFAULT), dict(M_DEFAULT)
+    obs, nclean = [], 0
+    names = ["g.y.rs"] + [m + ".rs" for m in M_MODS]
+    for t, o in zip(times, ops):
+        if o[0] == "Y":
+            with open(ypath, "w") as f:
+                f.write(_G[o[1]][0])
+            set_mtime(ypath, t)
+            obs.append(None)
+        elif o[0] == "S":
+            c[o[1]] = o[2]
+            obs.append(None)
+        elif o[0] == "R":
+            tc[o[1]] = o[2]
+            obs.append(None)
+        else:
+            before = {n: (os.stat(os.path.join(out, n)).st_mtime_ns if os.path.exists(os.path.join(out, n)) else None) for n in names}
+            res = spawn(exe, m_harness_line(c, tc, ypath, yout), env={"OUT_DIR": out})
+            written, files = {}, {}
+            for n in names:
+                pth = os.path.join(out, n)
+                written[n] = os.path.exists(pth) and os.stat(pth).st_mtime_ns != before[n]
+                if written[n]:
+                    set_mtime(pth, t)
+                files[n] = read_norm(pth, casedir)
+            others = sorted(set(os.listdir(out)) - set(names))
+            nclean += 1
+            cdir = os.path.join(casedir, "clean%d" % nclean)
+            os.makedirs(cdir)
+            cres = spawn(exe, m_harness_line(c, tc, ypath, os.path.join(cdir, "g.y.rs")), env={"OUT_DIR": cdir})
+            cfiles = {n: read_norm(os.path.join(cdir, n), casedir) for n in names}
+            obs.append({"res": m_classify(res, ypath), "raw": res, "files": files, "written": written, "others": others,
+                        "cres": m_classify(cres, ypath), "cfiles": cfiles, "mod": M_MODS[tc["tmod"]] + ".rs"})
+            shutil.rmtree(cdir, ignore_errors=True)
+    shutil.rmtree(casedir, ignore_errors=True)
+    return obs
+
+
+def tokmap_panic_probe(ctx, exe):
+    """The RemoveOnPanic guard of CTTokenMapBuilder::build, directly: no history of this builder can put a file at
+    $OUT_DIR/a-b.rs (every build with that module name panics in format_ident!), so the file is put there by hand; the
+    build panics; a build into an empty directory leaves nothing; the file must be gone."""
+    casedir = os.path.join(WORKROOT, "tokmap_panic")
+    shutil.rmtree(casedir, ignore_errors=True)
+    src, out = os.path.join(casedir, "src"), os.path.join(casedir, "out")
+    os.makedirs(src)
+    os.makedirs(out)
+    ypath = os.path.join(src, "g.y")
+    open(ypath, "w").write(_G[100][0])
+    set_mtime(ypath, 0)
+    stale = os.path.join(out, "a-b.rs")
+    open(stale, "w").write("mod stale { pub const T_PLUS: u32 = 0; }\n")
+    res = m_classify(spawn(exe, m_harness_line(dict(DEFAULT), dict(M_DEFAULT, tmod=2), ypath, os.path.join(out, "g.y.rs")), env={"OUT_DIR": out}), ypath)
+    left = os.path.exists(stale)
+    steps = {"module_name": "a-b", "result": list(res), "file_left": left}
+    ctx.case("tokmap-panic-probe", True, steps)
+    shutil.rmtree(casedir, ignore_errors=True)
+    ok = True
+    if res[0] != "ok" or res[2] != "panic":
+        ctx.violation({"what": "token map panic probe: unexpected outcome (expected: parser Ok, token map stage panics in format_ident!)",
+                       "steps": steps, "part": "manual_flow"}, no_input=True)
+        ok = False
+    elif left and TOKMAP_CLEANUP_FIXED:
+        ctx.violation({"what": "CTTokenMapBuilder::build panics (module name `a-b` is no identifier) and leaves $OUT_DIR/a-b.rs in place; a build "
+                               "into an empty OUT_DIR produces none", "grammar": _G[100][0], "steps": steps, "part": "manual_flow",
+                       "history": "OUT_DIR holds a-b.rs; CTParserBuilder::build (Ok); CTTokenMapBuilder::<u32>::new(\"a-b\", ctp.token_map()).build() panics",
+                       "kind": "counterexample"})
+        ok = False
+    elif not left and not TOKMAP_CLEANUP_FIXED:
+        ctx.violation({"what": "TOKMAP_CLEANUP_FIXED is off but the panicking token map build removed its output: the pinned mirror is not "
+                               "the mirror of this tree", "steps": steps, "part": "manual_flow"}, no_input=True)
+        ok = False
+    ctx.oblige(ok, "token map builder: no module survives a panicking build")
+
+
+def manual_flow(ctx, exe, mexe):
+    rng = random.Random(1801 + 7 * ctx.seed)
+    hs = m_histories(rng, ctx.n(45, 900))
+    mlines = [m_model_line(g0, ops, ts) for (g0, ops, ts) in hs]
+    model = core.run_lines([mexe], mlines)
+    with concurrent.futures.ThreadPoolExecutor(max_workers=max(2, core.NPROC)) as ex:
+        futs = [ex.submit(run_manual_history, exe, i, g0, ops, ts) for i, (g0, ops, ts) in enumerate(hs)]
+        impl = [f.result() for f in futs]
+    d2h, h2d = {}, {}
+
+    def bij(d, content):
+        if d is None or content is None:
+            return d is None and content is None
+        h = sha(content)
+        return d2h.setdefault(d, h) == h and h2d.setdefault(h, d) == d
+    ncorr_bad, nprop_bad, nbuilds = 0, 0, 0
+    cnt = {"tokmap_stage_failed": 0, "tokmap_stage_failed_with_file_before": 0, "tokmap_stale_pinned": 0, "parser_stage_failed_tokmap_kept": 0,
+           "identical_not_rewritten": 0, "rewritten": 0, "panic": 0}
+    for i, ((g0, ops, times), ml, ob) in enumerate(zip(hs, mlines, impl)):
+        ms = parse_model(model[i]) if " | " in model[i] or "=" in model[i] else []
+        builds = [k for k, o in enumerate(ops) if o[0] == "B"]
+        nontriv = len(builds) >= 2 and any(ops[k][0] != "B" for k in range(builds[0], builds[-1]))
+        hist_json = {"flow": "manual lexer: CTParserBuilder::build ; CTTokenMapBuilder::build (OUT_DIR = <case>/out)", "g0": g0,
+                     "ops": [list(o) for o in ops], "times": times, "model_line": ml,
+                     "grammars": {str(g): _G[g][0] for g in sorted({g0} | {o[1] for o in ops if o[0] == "Y"})},
+                     "rename_maps": {str(k): v for k, v in M_REN.items()}, "module_names": M_MODS,
+                     "options": "S: parser builder option (st: StorageT of both builders); R: tmod / tadc (- false true) / tren / tapi (builder, ct_token_map)"}
+        ctx.case("M %d %s %s" % (g0, ops, times), nontriv, {"history": hist_json, "model": model[i][:400]})
+        ctx.count("mode_M")
+        if len(ms) < len(ops):
+            ncorr_bad += 1
+            ctx.violation({"history": hist_json, "model_output": model[i][:300], "broken": "model driver", "part": "manual_flow"}, no_input=True)
+            continue
+        # an S of `st` gives two model operations at one time: align by walking
+        mi, prev_noop_ok = 0, None
+        tc = dict(M_DEFAULT)
+        last_files = {}
+        for k, o in enumerate(ops):
+            t = times[k]
+            m = ms[mi]
+            mi += 2 if (o[0] == "S" and o[1] == "st") else 1
+            if o[0] == "R":
+                tc[o[1]] = o[2]
+            if o[0] != "B":
+                ctx.count("manual_op_" + o[0] + ("_" + o[1] if o[0] in "SR" else ""))
+                prev_noop_ok = None
+                continue
+            nbuilds += 1
+            a = ob[k]
+            (pc, regen, tcl), (cpc, _, ctcl) = a["res"], a["cres"]
+            cur = a["mod"]
+            f, cf, w = a["files"], a["cfiles"], a["written"]
+            where = {"history": hist_json, "step": t, "part": "manual_flow",
+                     "impl": {"parser": pc, "regenerated": regen, "token_map_stage": tcl, "module_file": cur, "module_exists": f[cur] is not None,
+                              "module_written": w[cur], "clean_parser": cpc, "clean_token_map_stage": ctcl, "clean_module_exists": cf[cur] is not None,
+                              "module_equals_clean": f[cur] == cf[cur], "parser_output_equals_clean": f["g.y.rs"] == cf["g.y.rs"],
+                              "module_text": (f[cur] or "")[:600]},
+                     "model": m, "raw": a["raw"][:200]}
+            ctx.count("manual_parser_" + pc.split(":")[0])
+            ctx.count("manual_tokmap_" + tcl.split(":")[0])
+            found = False
+            # ---- the property, directly ---------------------------------------------------------------------------
+            if pc == "ok":
+                if tcl in ("err", "panic"):
+                    cnt["tokmap_stage_failed"] += 1
+                    cnt["panic"] += tcl == "panic"
+                    # ... with a module of an earlier build at that name: there is something to remove
+                    cnt["tokmap_stage_failed_with_file_before"] += last_files.get(cur) is not None
+                # C18_tokmap_incremental_equals_clean: parser output and module are those of the clean build (absent if it fails)
+                stale = f[cur] is not None and f[cur] != cf[cur]
+                if stale and tcl in ("err", "panic") and not TOKMAP_CLEANUP_FIXED and not w[cur]:
+                    cnt["tokmap_stale_pinned"] += 1          # the class of 746e223, tolerated only with the flag off
+                elif f[cur] != cf[cur] or f["g.y.rs"] != cf["g.y.rs"] or cpc != "ok" or tcl != ctcl:
+                    found = True
+                    nprop_bad += 1
+                    ctx.violation(dict(where, violated=("failed token map build left a module that a clean build does not produce (the module of an "
+                                                        "earlier grammar / earlier settings)" if stale and tcl != "ok" else
+                                                        "manual flow: incremental build differs from the build into an empty OUT_DIR"),
+                                       expected="$OUT_DIR/%s %s" % (cur, "absent" if cf[cur] is None else "as in the clean build")))
+                if tcl == "ok" and prev_noop_ok == k - 1 and (w[cur] or w["g.y.rs"] or regen):
+                    found = True
+                    nprop_bad += 1
+                    ctx.violation(dict(where, violated="second build of the manual flow without any change rewrote an output"))
+                if tcl == "ok":
+                    cnt["identical_not_rewritten" if not w[cur] else "rewritten"] += 1
+            else:
+                # scope: the script ends at the parser's Err; the token map builder is not run.  The parser output obeys the
+                # clause as in mode P; the module is whatever it was (compared with the mirror below)
+                if f["g.y.rs"] is not None and f["g.y.rs"] != cf["g.y.rs"] and STALE_FIXED:
+                    found = True
+                    nprop_bad += 1
+                    ctx.violation(dict(where, violated="failed build left a parser output that a clean build does not produce"))
+                if f[cur] is not None:
+                    cnt["parser_stage_failed_tokmap_kept"] += 1
+            if a["others"]:
+                found = True
+                nprop_bad += 1
+                ctx.violation(dict(where, violated="unexpected files in OUT_DIR", files=a["others"]))
+            last_files = f
+            strictly_later = k == 0 or times[k] > times[k - 1]
+            prev_noop_ok = k if (pc == "ok" and tcl == "ok" and strictly_later) else None
+            # ---- correspondence with the mirror -------------------------------------------------------------------
+            diffs = []
+            mp = m.get("p", "?")
+            if (pc, regen) != (("ok", mp == "ok1") if mp.startswith("ok") else (mp, None)):
+                diffs.append("parser stage %s/%s vs %s" % (pc, regen, mp))
+            mts = m.get("ts", "?")
+            its = {"ok": "ok1" if w[cur] else "ok0", "-": "-"}.get(tcl, tcl)
+            if its != mts:
+                diffs.append("token map stage %s vs %s" % (its, mts))
+            my, myt = desc(m["y"])
+            if not bij(my, f["g.y.rs"]):
+                diffs.append("parser output: exists/content class differs from %s" % my)
+            if m.get("yw") in ("0", "1") and w["g.y.rs"] != (m["yw"] == "1"):
+                diffs.append("parser output written %s vs %s" % (w["g.y.rs"], m["yw"]))
+            mdir = {}
+            if m["d"] != "-":
+                for ent in m["d"].split(","):
+                    kk, dd = ent.split(":", 1)
+                    mdir[M_MODS[int(kk)] + ".rs"] = desc(dd)
+            for n in [x + ".rs" for x in M_MODS]:
+                md, mdt = mdir.get(n, (None, None))
+                if not bij(md, f[n]):
+                    diffs.append("module %s: exists/content class differs from %s" % (n, md))
+                elif w[n] and (n != cur or mdt != t):
+                    diffs.append("module %s written, the mirror says otherwise" % n)
+            cexp = (("ok", None) if m.get("cp", "?").startswith("ok") else (m.get("cp"), None))
+            if cpc != cexp[0]:
+                diffs.append("clean parser stage %s vs %s" % (cpc, m.get("cp")))
+            if {"ok": "ok1"}.get(ctcl, ctcl) != m.get("cts"):
+                diffs.append("clean token map stage %s vs %s" % (ctcl, m.get("cts")))
+            if not bij(None if m["cy"] == "-" else m["cy"], cf["g.y.rs"]):
+                diffs.append("clean parser output differs from %s" % m["cy"])
+            if not bij(None if m["ct"] == "-" else m["ct"], cf[cur]):
+                diffs.append("clean module differs from %s" % m["ct"])
+            if diffs:
+                ncorr_bad += 1
+                if not found:
+                    ctx.violation(dict(where, broken="correspondence mirror/implementation (theorems C18_tokmap_* / C18_manual_flow_* speak "
+                                                     "about the mirror C18/TokModel.v)", differences=diffs), no_input=True)
+                break
+    ctx.oblige(ncorr_bad == 0, "manual flow: correspondence")
+    ctx.oblige(nprop_bad == 0, "manual flow: property on implementation")
+    ctx.coverage["manual_flow"] = dict(cnt, histories=len(hs), builds=nbuilds, content_classes=len(d2h),
+                                       variant={"TOKMAP_CLEANUP_FIXED": TOKMAP_CLEANUP_FIXED})
+
+
 def _run(ctx, exe, mexe, rng):
     static_cache_coverage(ctx)
     panic_probe(ctx, exe)
+    tokmap_panic_probe(ctx, exe)
+    manual_flow(ctx, exe, mexe)
     hs = [h + (default_times(h[3]),) for h in targeted_histories()] + same_tick_histories()
     for _ in range(ctx.n(150, 2500)):
         mode = "C" if rng.random() < 0.6 else "P"
@@ -1211,6 +1626,16 @@ def _run(ctx, exe, mexe, rng):
         "restoring; editing / adding / removing test files; all files removed; a regenerating change in between; same-tick edits) + "
         "random histories with test-file edits among the other operations; the inspector's verdict is a hand-made table handed to "
         "the mirror, every build is compared with the mirror (theories/C18/InspModel.v) and with a clean build; "
+        "manual_flow (theories/C18/TokModel.v): histories of the manual-lexer build script — CTParserBuilder::build, then "
+        "CTTokenMapBuilder::<u8|u16|u32>::new(mod, ctp.token_map()) [.rename_map(..)] [.allow_dead_code(..)] .build() or the deprecated "
+        "ct_token_map(), one process per build with OUT_DIR in its environment — over 10 grammar texts with four token sets (PLUS INT | '*' PLUS "
+        "INT | PLUS INT 'ä' 'if' | '+' '*' INT; conflicts, a warning, a syntax error), 8 rename maps (none, '*'->STAR, both odd names, a rename TO a "
+        "non-identifier, an identifier renamed to `+`, an irrelevant entry, ...), 4 module names (`a-b` is no identifier: format_ident! "
+        "panics; `fn`), allow_dead_code, StorageT; 25 shapes (the audit's G1 -> G2; rename map added / removed; token removed again; module "
+        "name changed and back; failing parser stage in between; same ticks) + random histories; after every build: parser stage, "
+        "regenerated(), token map stage, which files of OUT_DIR were written, existence + content class of g.y.rs and of every module "
+        "file vs the mirror, and existence + bytes (time stamp comment aside) of g.y.rs and $OUT_DIR/<current mod>.rs vs a build into an "
+        "empty OUT_DIR; tokmap_panic_probe: a file put at $OUT_DIR/a-b.rs by hand is gone after the panicking build; "
         "non-trivial = at least 2 builds with a change between them; distinct by history")
     ctx.coverage["exhaustive"] = False
     ctx.coverage["builds_replayed"] = nbuilds
@@ -1240,6 +1665,17 @@ def _run(ctx, exe, mexe, rng):
         "whose modification time is OLDER than the output (mv, cp -p, rsync -t, archive extraction) is not an edit in this sense "
         "and is not generated (audit 3); grammar_ast / with_grammar_src (feature `_unstable_api`; rebuild_cache documents that it "
         "ignores from_ast and grammar_src) are not entry points of the histories (audit 4)",
+        "manual flow, scope (C18_manual_flow_parser_failure_keeps_tokmap + _witness): CTParserBuilder and CTTokenMapBuilder are two "
+        "independent builders called one after the other by the user's build.rs; when the PARSER build fails the script ends and the "
+        "token map module (like a lexer generated by a separate CTLexerBuilder in mode S) of the earlier grammar stays: nothing in the "
+        "library can remove the other builder's file (CTLexerBuilder + lrpar_config, one builder driving the other, does: mode C). The "
+        "module name of CTTokenMapBuilder is the name of its output file: changing it addresses another file, the module under the old "
+        "name is not an output of the current configuration (C18_tokmap_build_touches_only_its_file); compared with the clean build: "
+        "$OUT_DIR/<current mod>.rs.  `renamed` (which token names are identifiers after renaming, and the resulting list) is abstract in "
+        "the mirror; the run instantiates it with Python's str.isidentifier on `T_` + name (agreement with syn::parse_str::<Ident> is "
+        "checked on every clean build)",
+        "CTParser::conflicts() is None when the parser output is cached (documented on the method) and inspect_rt is not part of the "
+        "cache string (same root as the known finding C18-testfiles-cached): neither is observed as a generated file",
         "the `Unused keys in header` check also runs only when the parser regenerates; its verdict changes only when the build "
         "script switches between CTParserBuilder alone and CTLexerBuilder+lrpar_config for the same output file (not an operation "
         "of the histories; grammars with a test_files key are replayed in combined mode only)",
